@@ -3,7 +3,8 @@ part)."""
 ID = 'C20'
 MODS = ['contracts.c_externs', 'contracts.c_utils', 'contracts.c_shell']
 FUNCS = ['yalafi.shell.checks.create_context',
-         'yalafi.shell.checks.create_message']
+         'yalafi.shell.checks.create_message',
+         'yalafi.shell.checks.create_single_letter_matches.<locals>.f']
 TRUSTED = ['assumed contract of re.Match: 0 <= start <= end <= len(string), group(0) == string[start:end]',
            'str.replace of one character by one character is a character-wise map (pyvc/builtins.py)']
 ASSUMPTIONS = ['which letters / placeholders the two regular expressions of checks.py select (and the accept-pattern filter) is '
